@@ -15,6 +15,13 @@
 (* reported as "M.Conformance" (model fidelity, not a property clause).    *)
 (* The monitor re-synchronises on the logged state after every event.      *)
 (*                                                                         *)
+(* Commands which name a pilot they cannot be applied to (add of an added  *)
+(* pilot, remove of a pilot which is not added) are not producible through *)
+(* the task manager (its add_pilots / remove_pilots refuse them before     *)
+(* publishing): they are outside the property's input space.  From the     *)
+(* first such command on, failing clauses are reported as notes            *)
+(* "N.HalfValidCommand/<clause>" - never as C12 clauses.                   *)
+(*                                                                         *)
 (* One TLC run validates a whole batch of traces: tid is chosen in Init.   *)
 (***************************************************************************)
 EXTENDS TmgrOps, TLC, Json, IOUtils
@@ -22,9 +29,9 @@ EXTENDS TmgrOps, TLC, Json, IOUtils
 Batch  == JsonDeserialize(IOEnv.TRACE_FILE)
 Traces == Batch.traces
 
-VARIABLES tid, l, cs, tst, bound, fwdCount, gset, grole, gst, errs, fin
+VARIABLES tid, l, cs, tst, bound, fwdCount, gset, grole, gst, hv, errs, fin
 
-vars == <<tid, l, cs, tst, bound, fwdCount, gset, grole, gst, errs, fin>>
+vars == <<tid, l, cs, tst, bound, fwdCount, gset, grole, gst, hv, errs, fin>>
 
 T      == Traces[tid]
 Ev     == T.events
@@ -62,6 +69,7 @@ Init ==
   /\ fwdCount = [t \in TS |-> 0]
   /\ gset = [p \in PS |-> {}]
   /\ grole = [p \in PS |-> "none"] /\ gst = [p \in PS |-> "none"]
+  /\ hv = FALSE
   /\ errs = {} /\ fin = FALSE
 
 \* what the design model expects of this callback, for one setting of the deviations
@@ -87,6 +95,10 @@ Step ==
          \* applied, judged on the role as commanded so far
          P     == IF e.ev = "AddPilots" THEN {p \in SeqSet(AddPids(e.add)) : grole[p] # "added"} ELSE {}
          R     == IF e.ev = "RemovePilots" THEN {p \in SeqSet(e.pids) : grole[p] = "added"} ELSE {}
+         \* outside the input space from here on?
+         hv2   == \/ hv
+                  \/ e.ev = "AddPilots"    /\ P # SeqSet(AddPids(e.add))
+                  \/ e.ev = "RemovePilots" /\ R # SeqSet(e.pids)
          \* the driver respects the task manager's guards
          input == CASE e.ev = "Submit"       -> \A t \in B : tst[t] = "new"
                     [] e.ev = "TaskStates"   -> \A t \in B : tst[t] = "fwd"
@@ -151,7 +163,8 @@ Step ==
      /\ fwdCount' = [t \in TS |-> fwdCount[t] + CountFwd(lfwd, t)]
      /\ gset' = w.gset
      /\ grole' = role2 /\ gst' = st2
-     /\ errs' = errs \cup c12
+     /\ hv' = hv2
+     /\ errs' = errs \cup (IF hv2 THEN {"N.HalfValidCommand/" \o c : c \in c12} ELSE c12)
                      \cup E(known, "M.UnknownEvent")
                      \cup E(input, "M.BadInput")
                      \cup E(\A i \in 1 .. Len(lfwd) : tst1[lfwd[i][1]] # "new", "M.ForwardUnsubmitted")
@@ -164,7 +177,7 @@ Finish ==
   /\ ~fin /\ l > Len(Ev)
   /\ fin' = TRUE
   /\ PrintT(<<"RESULT", T.tid, errs>>)
-  /\ UNCHANGED <<tid, l, cs, tst, bound, fwdCount, gset, grole, gst, errs>>
+  /\ UNCHANGED <<tid, l, cs, tst, bound, fwdCount, gset, grole, gst, hv, errs>>
 
 Next == Step \/ Finish
 Spec == Init /\ [][Next]_vars
